@@ -429,6 +429,10 @@ def oracle(case):
     hd = {k.lower(): v for k, v in headers}
     want = rfc_window(L, ranges)
     bad = None
+    import http.client
+    if code in (200, 206, 416) and status != "%d %s" % (code, http.client.responses[code]):
+        return [Violation("range:status-line", case, "status line %r, the registered phrase of %d is %r"
+                          % (status, code, http.client.responses[code]))]
     if t[1] in ("bufs", "bufu", "bufl"):
         # RFC 9110 14.2: a range applies to a 200 response and to units the server supports, else it is ignored
         want_code = int(t[2]) if t[1] in ("bufs", "bufl") else 200
